@@ -40,6 +40,9 @@ def _load(prop):
     from . import snapshot
     snapshot.install()
     mod = importlib.import_module('hxverif.props.%s' % prop.lower())
+    if getattr(mod, 'NEEDS_ZYGOTE', False):
+        from . import zygote
+        zygote.start()          # forked now: the snapshot is installed, nothing has been evaluated yet
     return mod
 
 
